@@ -661,6 +661,42 @@ func c12(x *mon.Ctx) {
 	})
 	x.Require("history", 0, 0, nh)
 
+	// ---- (c0) the shortest history that tells "remembered" from "checked": an accepted quote, then ANY world of the corpus twice in a
+	//      row, then the accepted quote again — every verdict is the fresh one (a refused call leaves no credit behind for its
+	//      repetition, and takes none away from the next good one)
+	{
+		nabb := x.Pick(120, 3000)
+		x.Each(nabb, func(i int) {
+			r := x.Rand(fmt.Sprint("abb", i))
+			good := richHonest(r)
+			w, label := anyWorld(r)
+			if i%4 == 0 { // a chain of the OTHER Intel CA: sound in itself, never accepted by this library
+				w = richHonest(r)
+				proc := world.Issue(world.InterTemplate(world.CNProcessor, world.Far), w.PKI.Root, world.NewKey())
+				leaf := world.Issue(world.LeafTemplate(world.Far, world.SgxExtension(w.P)), proc, w.PKI.Leaf.Key)
+				w.Q.Chain = world.ChainPEM(false, leaf, proc, w.PKI.Root)
+				label = "processor-ca"
+			}
+			lvl := []int{world.LBase, world.LColl, world.LCrl}[i%3]
+			sh := &verify.Options{}
+			seq := []*world.Case{good.Case(lvl, "history-accepted-then-twice", "a"), w.Case(lvl, "history-accepted-then-twice", "b"), w.Case(lvl, "history-accepted-then-twice", "b"), good.Case(lvl, "history-accepted-then-twice", "a")}
+			var hist []string
+			for step, c := range seq {
+				c.Form = mon.Forms[(i+step/2)%4]
+				outS := mon.RunVerifyShared(c, sh)
+				outF := mon.RunVerify(c)
+				hist = append(hist, fmt.Sprintf("%s:shared=%v/fresh=%v", c.Param, outS.Accepted, outF.Accepted))
+				param := fmt.Sprintf("h%d/%s/step%d", i, label, step+1)
+				if outS.Panic != "" || outS.Accepted != outF.Accepted {
+					x.Violation("history-accepted-then-twice", param, fmt.Sprintf("history (accepted quote, %s, %s again, the accepted quote) through one options value, call %d: accepted=%v (%s%s); a fresh value: accepted=%v (%s); so far %v", label, label, step+1, outS.Accepted, outS.Err, outS.Panic, outF.Accepted, outF.Err, hist), "verify", c)
+					break
+				}
+			}
+			x.Note("history-accepted-then-twice", fmt.Sprint(i, label), false, false, true)
+		})
+		x.Require("history-accepted-then-twice", 0, 0, nabb)
+	}
+
 	// ---- (c') histories that mix the two entry points (bytes / message) on one options value, and that present the SAME message
 	//      object again after the caller edited it in place: a refused call leaves nothing behind that the next call — through the
 	//      other entry point, for another quote — could mistake for its own; a message is judged by what it holds now
